@@ -142,7 +142,9 @@ def str_specs(cls):
     for node in ast.walk(fn[0]):
         if isinstance(node, ast.FormattedValue) and node.format_spec is not None:
             spec = "".join(v.value for v in node.format_spec.values if isinstance(v, ast.Constant))
-            out.append((ast.unparse(node.value), spec))
+            v = node.value
+            is_float = isinstance(v, ast.Call) and ast.unparse(v.func) == "float"
+            out.append((ast.unparse(v), spec, is_float))
     return out
 
 
@@ -207,10 +209,10 @@ def generate(repo: str) -> str:
             "def docBlocks : List String := [" + ", ".join(lean_str(b) for b in DOC_BLOCKS) + "]", "",
             "/-- `Model.solve` copies the matrix returned by `create_S` before collecting it -/",
             f"def modelSolveCopies : Bool := {'true' if copies else 'false'}", "",
-            "/-- format specs applied in `__str__` : (class, expression, spec) -/",
-            "def strSpecs : List (String × String × String) := ["]
-    specs = [(b, e, s) for b, _, _, ss in blocks for e, s in ss]
-    out.append(",\n".join(f"  ({lean_str(b)}, {lean_str(e)}, {lean_str(s)})" for b, e, s in specs) + "]")
+            "/-- format specs applied in `__str__` : (class, expression, spec, expression is a float(...) call) -/",
+            "def strSpecs : List (String × String × String × Bool) := ["]
+    specs = [(b, e, s, fl) for b, _, _, ss in blocks for e, s, fl in ss]
+    out.append(",\n".join(f"  ({lean_str(b)}, {lean_str(e)}, {lean_str(s)}, {'true' if fl else 'false'})" for b, e, s, fl in specs) + "]")
     out += ["", "end Generated", ""]
     return "\n".join(out)
 
